@@ -10,6 +10,9 @@ mod rng;
 mod vfs;
 mod wa_exec;
 mod wa_plan;
+mod wb_exec;
+mod wb_plan;
+mod codec_dns;
 
 fn arg(args: &[String], name: &str) -> Option<String> {
     args.iter().position(|a| a == name).and_then(|i| args.get(i + 1).cloned())
@@ -31,6 +34,28 @@ fn main() {
                 println!("{}", serde_json::to_string_pretty(&plan).unwrap());
             }
             let res = std::thread::spawn(move || wa_exec::run_plan(&plan, &wa_exec::ExecOpts { trace, only: None })).join().unwrap();
+            if trace {
+                if let Some(l) = common::LOGGER.keep.lock().unwrap().as_ref() {
+                    for x in l {
+                        eprintln!("LOG {}", x);
+                    }
+                }
+            }
+            println!("{}", serde_json::to_string_pretty(&res).unwrap());
+        }
+        "run-b" => {
+            let seed: u64 = arg(&args, "--seed").and_then(|s| s.parse().ok()).unwrap_or(1);
+            let shape: &'static str = Box::leak(arg(&args, "--shape").unwrap_or("basic".into()).into_boxed_str());
+            let trace = args.iter().any(|a| a == "--trace");
+            common::install_panic_hook();
+            common::install_logger(trace);
+            let plan = wb_plan::generate(seed, &wb_plan::GenB { shape, thorough: false });
+            if args.iter().any(|a| a == "--plan") {
+                println!("{}", plan.yaml());
+                println!("{}", serde_json::to_string_pretty(&plan).unwrap());
+            }
+            interpose::arm_rng(seed);
+            let res = std::thread::spawn(move || wb_exec::run_plan(&plan, &wb_exec::ExecB { trace })).join().unwrap();
             if trace {
                 if let Some(l) = common::LOGGER.keep.lock().unwrap().as_ref() {
                     for x in l {
